@@ -1,3 +1,650 @@
-(* C11 lemma library (under construction) *)
-From Coq Require Import List String Bool Arith NArith Lia.
+(* C11 lemma library: range expansion, collapse_vlandb, chunking, the command simulator and
+   the rule logics of Model/Vlan.v. *)
+From Coq Require Import List String Ascii Bool Arith NArith Lia Sorted Permutation SetoidList.
+From Coq Require Import MSets MSetAVL MSetFacts MSetProperties MSetDecide.
 From Annet Require Import Base.Str Model.Vlan Spec.P_C11.
+Import ListNotations.
+Open Scope list_scope.
+Open Scope N_scope.
+
+Module NSF := MSetFacts.WFacts(NS).
+Module NSP := MSetProperties.WProperties(NS).
+Module NSD := MSetDecide.WDecide(NS).
+
+(* ------------------------------------------------------------------------------------ *)
+(* ranges as sets *)
+
+Definition in_range (v : N) (r : range) : Prop := fst r <= v <= snd r.
+Definition in_ranges (v : N) (rs : list range) : Prop := exists r, In r rs /\ in_range v r.
+
+Lemma iter_range_step n : forall lo s,
+  fst (N.iter n range_step (lo, s)) = lo + n /\
+  forall v, NS.In v (snd (N.iter n range_step (lo, s))) <-> (lo <= v < lo + n) \/ NS.In v s.
+Proof.
+  induction n as [|n IH] using N.peano_ind; intros lo s.
+  - cbn. split; [lia|]. intro v. split; [intro H; now right|intros [H|H]; [lia|exact H]].
+  - rewrite N.iter_succ. destruct (IH lo s) as [F I].
+    set (p := N.iter n range_step (lo, s)) in *.
+    unfold range_step. cbn [fst snd]. rewrite F. split; [lia|].
+    intro v. rewrite NS.add_spec, I. split.
+    + intros [E|[H|H]]; [left; lia|left; lia|now right].
+    + intros [H|H]; [|now right; right].
+      destruct (N.eq_dec v (lo + n)) as [E|E]; [now left|right; left; lia].
+Qed.
+
+Lemma add_count_spec lo n s v :
+  NS.In v (add_count lo n s) <-> (lo <= v < lo + n) \/ NS.In v s.
+Proof. unfold add_count. apply iter_range_step. Qed.
+
+Lemma add_range_spec lo hi s v :
+  NS.In v (add_range lo hi s) <-> (lo <= v <= hi) \/ NS.In v s.
+Proof.
+  unfold add_range. rewrite add_count_spec. split; intros [H|H]; try (now right); left; lia.
+Qed.
+
+Lemma add_pyrange_spec a b s v :
+  NS.In v (add_pyrange a b s) <-> (a <= v < b) \/ NS.In v s.
+Proof.
+  unfold add_pyrange. rewrite add_count_spec. split; intros [H|H]; try (now right); left; lia.
+Qed.
+
+Lemma set_of_ranges_spec rs v : NS.In v (set_of_ranges rs) <-> in_ranges v rs.
+Proof.
+  induction rs as [|r rs IH]; cbn [set_of_ranges fold_right].
+  - split; [intro H; exfalso; revert H; apply NSF.empty_iff|intros (r & [] & _)].
+  - fold (set_of_ranges rs). rewrite add_range_spec, IH. split.
+    + intros [H|(q & Hq & Hv)]; [exists r; split; [now left|exact H]|exists q; split; [now right|exact Hv]].
+    + intros (q & [E|Hq] & Hv); [subst q; now left|right; exists q; now split].
+Qed.
+
+Lemma in_ranges_app v a b : in_ranges v (a ++ b) <-> in_ranges v a \/ in_ranges v b.
+Proof.
+  unfold in_ranges. split.
+  - intros (r & H & Hv). apply in_app_or in H as [H|H]; [left|right]; exists r; now split.
+  - intros [(r & H & Hv)|(r & H & Hv)]; exists r; split; auto using in_or_app.
+Qed.
+
+Lemma in_ranges_concat v cs : in_ranges v (concat cs) <-> exists c, In c cs /\ in_ranges v c.
+Proof.
+  induction cs as [|c cs IH]; cbn [concat].
+  - split; [intros (r & [] & _)|intros (c & [] & _)].
+  - rewrite in_ranges_app, IH. split.
+    + intros [H|(d & Hd & H)]; [exists c; split; [now left|exact H]|exists d; split; [now right|exact H]].
+    + intros (d & [E|Hd] & H); [subst d; now left|right; exists d; now split].
+Qed.
+
+(* ------------------------------------------------------------------------------------ *)
+(* collapse_vlandb *)
+
+Lemma collapse_go_spec tiny : forall l lo hi,
+  lo <= hi -> Sorted N.lt (hi :: l) ->
+  forall v, in_ranges v (collapse_go tiny lo hi l) <-> (lo <= v <= hi) \/ In v l.
+Proof.
+  induction l as [|x l IH]; intros lo hi Hle Hs v; cbn [collapse_go].
+  - split.
+    + intros (r & [E|[]] & Hv). subst r. now left.
+    + intros [H|[]]. exists (lo, hi). split; [now left|exact H].
+  - apply Sorted_inv in Hs as [Hs Hd]. apply HdRel_inv in Hd.
+    destruct (N.eqb_spec (N.succ hi) x) as [E|E].
+    + rewrite IH by (try exact Hs; lia). cbn [In]. split.
+      * intros [H|H]; [|now right; right].
+        destruct (N.eq_dec v x) as [Ev|Ev]; [right; left; now symmetry|left; lia].
+      * intros [H|[H|H]]; [left; lia|left; lia|now right].
+    + destruct (negb tiny && N.eqb (hi - lo) 1) eqn:T.
+      * apply andb_true_iff in T as [_ T]. apply N.eqb_eq in T.
+        assert (IH' := IH x x (N.le_refl x) Hs v).
+        split.
+        -- intros (r & [Er|[Er|Hr]] & Hv).
+           ++ subst r. unfold in_range in Hv; cbn in Hv. left; lia.
+           ++ subst r. unfold in_range in Hv; cbn in Hv. left; lia.
+           ++ assert (H : in_ranges v (collapse_go tiny x x l)) by (exists r; now split).
+              apply IH' in H as [H|H]; right; [left; lia|now right].
+        -- intros [H|[H|H]].
+           ++ destruct (N.eq_dec v lo) as [Ev|Ev].
+              ** exists (lo, lo). split; [now left|unfold in_range; cbn; lia].
+              ** exists (hi, hi). split; [right; now left|unfold in_range; cbn; lia].
+           ++ assert (H' : in_ranges v (collapse_go tiny x x l)) by (apply IH'; left; lia).
+              destruct H' as (r & Hr & Hv). exists r. split; [right; right; exact Hr|exact Hv].
+           ++ assert (H' : in_ranges v (collapse_go tiny x x l)) by (apply IH'; now right).
+              destruct H' as (r & Hr & Hv). exists r. split; [right; right; exact Hr|exact Hv].
+      * assert (IH' := IH x x (N.le_refl x) Hs v).
+        split.
+        -- intros (r & [Er|Hr] & Hv).
+           ++ subst r. now left.
+           ++ assert (H : in_ranges v (collapse_go tiny x x l)) by (exists r; now split).
+              apply IH' in H as [H|H]; right; [left; lia|now right].
+        -- intros [H|[H|H]].
+           ++ exists (lo, hi). split; [now left|exact H].
+           ++ assert (H' : in_ranges v (collapse_go tiny x x l)) by (apply IH'; left; lia).
+              destruct H' as (r & Hr & Hv). exists r. split; [right; exact Hr|exact Hv].
+           ++ assert (H' : in_ranges v (collapse_go tiny x x l)) by (apply IH'; now right).
+              destruct H' as (r & Hr & Hv). exists r. split; [right; exact Hr|exact Hv].
+Qed.
+
+Lemma In_elements s v : In v (NS.elements s) <-> NS.In v s.
+Proof.
+  rewrite <- NS.elements_spec1. split.
+  - intro H. apply In_InA; [typeclasses eauto|exact H].
+  - intro H. apply InA_alt in H as (y & E & H). now subst y.
+Qed.
+
+(* expanding the collapsed rows gives back the set (any tiny_ranges flag) *)
+Lemma collapse_spec tiny s v : in_ranges v (collapse tiny s) <-> NS.In v s.
+Proof.
+  unfold collapse. rewrite <- In_elements.
+  assert (Hs := NS.elements_spec2 s).
+  destruct (NS.elements s) as [|x l].
+  - split; [intros (r & [] & _)|intros []].
+  - rewrite collapse_go_spec; [|apply N.le_refl|exact Hs]. cbn [In]. split.
+    + intros [H|H]; [left; lia|now right].
+    + intros [H|H]; [left; lia|now right].
+Qed.
+
+(* every collapsed row is written lo <= hi *)
+Lemma collapse_go_ok tiny : forall l lo hi,
+  lo <= hi -> Sorted N.lt (hi :: l) ->
+  Forall (fun r => fst r <= snd r) (collapse_go tiny lo hi l).
+Proof.
+  induction l as [|x l IH]; intros lo hi Hle Hs; cbn [collapse_go].
+  - constructor; [exact Hle|constructor].
+  - apply Sorted_inv in Hs as [Hs Hd]. apply HdRel_inv in Hd.
+    destruct (N.eqb_spec (N.succ hi) x) as [E|E].
+    + apply IH; [lia|exact Hs].
+    + destruct (negb tiny && N.eqb (hi - lo) 1).
+      * constructor; [cbn; lia|]. constructor; [cbn; lia|]. apply IH; [lia|exact Hs].
+      * constructor; [exact Hle|]. apply IH; [lia|exact Hs].
+Qed.
+
+Lemma collapse_ok tiny s : Forall (fun r => fst r <= snd r) (collapse tiny s).
+Proof.
+  unfold collapse. assert (Hs := NS.elements_spec2 s).
+  destruct (NS.elements s) as [|x l]; [constructor|].
+  apply collapse_go_ok; [lia|exact Hs].
+Qed.
+
+(* ------------------------------------------------------------------------------------ *)
+(* _chunked *)
+
+Lemma chunked_fuel_concat {A} (n : nat) : forall fuel (l : list A),
+  (List.length l <= fuel)%nat -> concat (chunked_fuel fuel (S n) l) = l.
+Proof.
+  induction fuel as [|f IH]; intros l Hl.
+  - destruct l; [reflexivity|cbn in Hl; lia].
+  - cbn [chunked_fuel]. destruct l as [|x l]; [reflexivity|].
+    cbn [concat]. rewrite IH.
+    + apply firstn_skipn.
+    + rewrite skipn_length. cbn [List.length] in *. lia.
+Qed.
+
+Lemma chunked_concat {A} (n : nat) (l : list A) : concat (chunked (S n) l) = l.
+Proof. unfold chunked. apply chunked_fuel_concat. lia. Qed.
+
+Lemma chunks_of_concat lg rs : concat (chunks_of lg rs) = rs.
+Proof.
+  unfold chunks_of, chunk_size. destruct lg; try apply chunked_concat.
+  cbn. apply app_nil_r.
+Qed.
+
+(* ------------------------------------------------------------------------------------ *)
+(* the simulator on lists of Add / Remove commands *)
+
+Definition simple_cmd (c : cmd) : Prop := match c with Add _ | Remove _ => True | _ => False end.
+
+(* VLANs some Remove (resp. Add) command of the list names *)
+Definition removes (cs : list cmd) (v : N) : Prop := exists rs, In (Remove rs) cs /\ in_ranges v rs.
+Definition adds (cs : list cmd) (v : N) : Prop := exists rs, In (Add rs) cs /\ in_ranges v rs.
+
+Lemma removes_cons_remove rs cs v : removes (Remove rs :: cs) v <-> in_ranges v rs \/ removes cs v.
+Proof.
+  unfold removes. split.
+  - intros (q & [E|H] & Hv); [injection E as E; subst q; now left|right; exists q; now split].
+  - intros [H|(q & H & Hv)]; [exists rs; split; [now left|exact H]|exists q; split; [now right|exact Hv]].
+Qed.
+
+Lemma removes_cons_add rs cs v : removes (Add rs :: cs) v <-> removes cs v.
+Proof.
+  unfold removes. split.
+  - intros (q & [E|H] & Hv); [discriminate E|exists q; now split].
+  - intros (q & H & Hv). exists q; split; [now right|exact Hv].
+Qed.
+
+Lemma adds_cons_add rs cs v : adds (Add rs :: cs) v <-> in_ranges v rs \/ adds cs v.
+Proof.
+  unfold adds. split.
+  - intros (q & [E|H] & Hv); [injection E as E; subst q; now left|right; exists q; now split].
+  - intros [H|(q & H & Hv)]; [exists rs; split; [now left|exact H]|exists q; split; [now right|exact Hv]].
+Qed.
+
+Lemma adds_cons_remove rs cs v : adds (Remove rs :: cs) v <-> adds cs v.
+Proof.
+  unfold adds. split.
+  - intros (q & [E|H] & Hv); [discriminate E|exists q; now split].
+  - intros (q & H & Hv). exists q; split; [now right|exact Hv].
+Qed.
+
+(* effect of any sequence of Add/Remove commands whose removed and added VLANs are disjoint *)
+Lemma simulate_spec : forall cs s,
+  Forall simple_cmd cs ->
+  (forall v, removes cs v -> adds cs v -> False) ->
+  forall v, NS.In v (simulate cs s) <-> (NS.In v s /\ ~ removes cs v) \/ adds cs v.
+Proof.
+  induction cs as [|c cs IH]; intros s Hf Hd v; cbn [simulate].
+  - split.
+    + intro H. left. split; [exact H|intros (q & [] & _)].
+    + intros [[H _]|(q & [] & _)]. exact H.
+  - apply Forall_cons_iff in Hf as [Hc Hf].
+    destruct c as [rs|rs| | |rs]; try contradiction; cbn [step].
+    + (* Add *)
+      rewrite IH; [|exact Hf|].
+      * rewrite NS.union_spec, set_of_ranges_spec, adds_cons_add.
+        assert (D := Hd v). rewrite removes_cons_add, adds_cons_add in D.
+        rewrite removes_cons_add. tauto.
+      * intros w Hr Ha. apply (Hd w); [now apply removes_cons_add|apply adds_cons_add; now right].
+    + (* Remove *)
+      rewrite IH; [|exact Hf|].
+      * rewrite NS.diff_spec, set_of_ranges_spec, adds_cons_remove.
+        assert (D := Hd v). rewrite removes_cons_remove, adds_cons_remove in D.
+        rewrite removes_cons_remove. tauto.
+      * intros w Hr Ha. apply (Hd w); [apply removes_cons_remove; now right|now apply adds_cons_remove].
+Qed.
+
+Lemma removes_perm cs cs' v : Permutation cs cs' -> removes cs v -> removes cs' v.
+Proof. intros P (q & H & Hv). exists q. split; [eapply Permutation_in; eassumption|exact Hv]. Qed.
+
+Lemma adds_perm cs cs' v : Permutation cs cs' -> adds cs v -> adds cs' v.
+Proof. intros P (q & H & Hv). exists q. split; [eapply Permutation_in; eassumption|exact Hv]. Qed.
+
+Lemma removes_app_l l1 l2 v : removes l1 v -> removes (l1 ++ l2) v.
+Proof. intros (q & H & Hv). exists q. split; [apply in_or_app; now left|exact Hv]. Qed.
+
+Lemma adds_app_l l1 l2 v : adds l1 v -> adds (l1 ++ l2) v.
+Proof. intros (q & H & Hv). exists q. split; [apply in_or_app; now left|exact Hv]. Qed.
+
+(* the command list  [Remove chunk ...] ++ [Add chunk ...]  built from two sets *)
+Definition cmds_of (lg : logic) (tiny : bool) (R A : NS.t) : list cmd :=
+  (if NS.is_empty R then [] else map Remove (chunks_of lg (collapse tiny R))) ++
+  (if NS.is_empty A then [] else map Add (chunks_of lg (collapse tiny A))).
+
+Lemma cmds_of_simple lg tiny R A : Forall simple_cmd (cmds_of lg tiny R A).
+Proof.
+  unfold cmds_of. apply Forall_app. split.
+  - destruct (NS.is_empty R); [constructor|]. apply Forall_forall. intros c H.
+    apply in_map_iff in H as (x & E & _). subst c. exact I.
+  - destruct (NS.is_empty A); [constructor|]. apply Forall_forall. intros c H.
+    apply in_map_iff in H as (x & E & _). subst c. exact I.
+Qed.
+
+Lemma in_chunks_collapse lg tiny X v :
+  (exists rs, In rs (chunks_of lg (collapse tiny X)) /\ in_ranges v rs) <-> NS.In v X.
+Proof. rewrite <- in_ranges_concat, chunks_of_concat. apply collapse_spec. Qed.
+
+Lemma cmds_of_removes lg tiny R A v : removes (cmds_of lg tiny R A) v <-> NS.In v R.
+Proof.
+  unfold removes, cmds_of. split.
+  - intros (rs & H & Hv). apply in_app_or in H as [H|H].
+    + destruct (NS.is_empty R); [destruct H|].
+      apply in_map_iff in H as (x & E & Hx). injection E as E. subst x.
+      apply (in_chunks_collapse lg tiny). exists rs. now split.
+    + destruct (NS.is_empty A); [destruct H|].
+      apply in_map_iff in H as (x & E & _). discriminate E.
+  - intro H. destruct (NS.is_empty R) eqn:E.
+    + apply NS.is_empty_spec in E. exfalso. exact (E v H).
+    + apply (in_chunks_collapse lg tiny) in H as (rs & Hrs & Hv). exists rs. split; [|exact Hv].
+      apply in_or_app. left. apply in_map. exact Hrs.
+Qed.
+
+Lemma cmds_of_adds lg tiny R A v : adds (cmds_of lg tiny R A) v <-> NS.In v A.
+Proof.
+  unfold adds, cmds_of. split.
+  - intros (rs & H & Hv). apply in_app_or in H as [H|H].
+    + destruct (NS.is_empty R); [destruct H|].
+      apply in_map_iff in H as (x & E & _). discriminate E.
+    + destruct (NS.is_empty A); [destruct H|].
+      apply in_map_iff in H as (x & E & Hx). injection E as E. subst x.
+      apply (in_chunks_collapse lg tiny). exists rs. now split.
+  - intro H. destruct (NS.is_empty A) eqn:E.
+    + apply NS.is_empty_spec in E. exfalso. exact (E v H).
+    + apply (in_chunks_collapse lg tiny) in H as (rs & Hrs & Hv). exists rs. split; [|exact Hv].
+      apply in_or_app. right. apply in_map. exact Hrs.
+Qed.
+
+(* ------------------------------------------------------------------------------------ *)
+(* lines: equality test, the three-way split of the row diff *)
+
+Lemma range_eqb_eq a b : range_eqb a b = true <-> a = b.
+Proof.
+  destruct a as [a1 a2], b as [b1 b2]. unfold range_eqb. cbn [fst snd].
+  rewrite andb_true_iff, !N.eqb_eq. split; [intros [-> ->]; reflexivity|intro E; injection E as -> ->; now split].
+Qed.
+
+Lemma ranges_eqb_eq : forall a b, ranges_eqb a b = true <-> a = b.
+Proof.
+  induction a as [|x a IH]; intros [|y b]; cbn [ranges_eqb]; try (split; [discriminate|discriminate]).
+  - split; reflexivity.
+  - rewrite andb_true_iff, range_eqb_eq, IH. split; [intros [-> ->]; reflexivity|intro E; injection E as -> ->; now split].
+Qed.
+
+Lemma line_eqb_eq a b : line_eqb a b = true <-> a = b.
+Proof.
+  destruct a as [fa ra], b as [fb rb]. unfold line_eqb. cbn [fst snd].
+  rewrite andb_true_iff, ranges_eqb_eq, Bool.eqb_true_iff.
+  split; [intros [-> ->]; reflexivity|intro E; injection E as -> ->; now split].
+Qed.
+
+Lemma mem_line_In x l : mem_line x l = true <-> In x l.
+Proof.
+  unfold mem_line. rewrite existsb_exists. split.
+  - intros (y & H & E). apply line_eqb_eq in E. now subst y.
+  - intro H. exists x. split; [exact H|now apply line_eqb_eq].
+Qed.
+
+Lemma set_of_lines_spec ls v :
+  NS.In v (set_of_lines ls) <-> exists l, In l ls /\ NS.In v (line_set l).
+Proof.
+  induction ls as [|l ls IH]; cbn [set_of_lines fold_right].
+  - split; [intro H; exfalso; revert H; apply NSF.empty_iff|intros (l & [] & _)].
+  - fold (set_of_lines ls). rewrite NS.union_spec, IH. unfold line_set. split.
+    + intros [H|(m & Hm & H)]; [exists l; split; [now left|exact H]|exists m; split; [now right|exact H]].
+    + intros (m & [E|Hm] & H); [subst m; now left|right; exists m; now split].
+Qed.
+
+Lemma pairwise_disjoint_spec : forall ls l1 l2,
+  pairwise_disjoint ls = true -> In l1 ls -> In l2 ls -> l1 <> l2 ->
+  forall v, NS.In v (line_set l1) -> NS.In v (line_set l2) -> False.
+Proof.
+  induction ls as [|l ls IH]; intros l1 l2 Hp H1 H2 Hne v Hv1 Hv2; [destruct H1|].
+  cbn [pairwise_disjoint] in Hp. apply andb_true_iff in Hp as [Hh Hp].
+  rewrite forallb_forall in Hh.
+  assert (D : forall m, In m ls -> NS.In v (line_set l) -> NS.In v (line_set m) -> False).
+  { intros m Hm Ha Hb. specialize (Hh m Hm). unfold disjointb in Hh.
+    apply NS.is_empty_spec in Hh. apply (Hh v). apply NS.inter_spec. now split. }
+  destruct H1 as [E1|H1], H2 as [E2|H2].
+  - subst. now apply Hne.
+  - subst l1. exact (D l2 H2 Hv1 Hv2).
+  - subst l2. exact (D l1 H1 Hv2 Hv1).
+  - exact (IH l1 l2 Hp H1 H2 Hne v Hv1 Hv2).
+Qed.
+
+Section Diff.
+  Variables (old new : list line).
+  Let U := set_of_lines (lines_unchanged old new).
+  Let O := set_of_lines (lines_removed old new).
+  Let A := set_of_lines (lines_added old new).
+
+  Lemma S_old_split v : NS.In v (set_of_lines old) <-> NS.In v U \/ NS.In v O.
+  Proof.
+    unfold U, O, lines_unchanged, lines_removed. rewrite !set_of_lines_spec. split.
+    - intros (l & Hl & Hv). destruct (mem_line l new) eqn:E.
+      + left. exists l. split; [apply filter_In; now split|exact Hv].
+      + right. exists l. split; [apply filter_In; split; [exact Hl|now rewrite E]|exact Hv].
+    - intros [(l & Hl & Hv)|(l & Hl & Hv)]; apply filter_In in Hl as [Hl _]; exists l; now split.
+  Qed.
+
+  Lemma S_new_split v : NS.In v (set_of_lines new) <-> NS.In v U \/ NS.In v A.
+  Proof.
+    unfold U, A, lines_unchanged, lines_added. rewrite !set_of_lines_spec. split.
+    - intros (l & Hl & Hv). destruct (mem_line l old) eqn:E.
+      + left. exists l. split; [|exact Hv]. apply filter_In. split; [now apply mem_line_In|now apply mem_line_In].
+      + right. exists l. split; [apply filter_In; split; [exact Hl|now rewrite E]|exact Hv].
+    - intros [(l & Hl & Hv)|(l & Hl & Hv)]; apply filter_In in Hl as [Hl Hm]; exists l; split; try exact Hv.
+      + now apply mem_line_In.
+      + exact Hl.
+  Qed.
+
+  (* a VLAN of an unchanged line is on no removed line, when the old lines split the set *)
+  Lemma U_O_disjoint v : pairwise_disjoint old = true -> NS.In v U -> NS.In v O -> False.
+  Proof.
+    unfold U, O, lines_unchanged, lines_removed. rewrite !set_of_lines_spec.
+    intros Hp (l1 & H1 & Hv1) (l2 & H2 & Hv2).
+    apply filter_In in H1 as [H1 M1]. apply filter_In in H2 as [H2 M2].
+    assert (Hne : l1 <> l2) by (intro E; subst l2; rewrite M1 in M2; discriminate M2).
+    exact (pairwise_disjoint_spec old l1 l2 Hp H1 H2 Hne v Hv1 Hv2).
+  Qed.
+End Diff.
+
+(* ------------------------------------------------------------------------------------ *)
+(* effect of the emitted commands, in any order, on S_old = U + O with S_new = U + A *)
+
+Section Effect.
+  Variables (lg : logic) (tiny : bool) (U O A So Sn : NS.t).
+  Hypothesis HSo : forall v, NS.In v So <-> NS.In v U \/ NS.In v O.
+  Hypothesis HSn : forall v, NS.In v Sn <-> NS.In v U \/ NS.In v A.
+  Hypothesis HUO : forall v, NS.In v U -> NS.In v O -> False.
+  Let cs := cmds_of lg tiny (NS.diff O A) (NS.diff A O).
+
+  Lemma perm_removes cs' v : Permutation cs' cs -> (removes cs' v <-> NS.In v (NS.diff O A)).
+  Proof.
+    intro P. unfold cs in P. rewrite <- (cmds_of_removes lg tiny _ (NS.diff A O)). split.
+    - now apply removes_perm.
+    - apply removes_perm. now apply Permutation_sym.
+  Qed.
+
+  Lemma perm_adds cs' v : Permutation cs' cs -> (adds cs' v <-> NS.In v (NS.diff A O)).
+  Proof.
+    intro P. unfold cs in P. rewrite <- (cmds_of_adds lg tiny (NS.diff O A) _). split.
+    - now apply adds_perm.
+    - apply adds_perm. now apply Permutation_sym.
+  Qed.
+
+  Lemma perm_simple cs' : Permutation cs' cs -> Forall simple_cmd cs'.
+  Proof.
+    intro P. apply (Permutation_Forall (Permutation_sym P)). apply cmds_of_simple.
+  Qed.
+
+  Lemma perm_disjoint cs' : Permutation cs' cs -> forall v, removes cs' v -> adds cs' v -> False.
+  Proof.
+    intros P v Hr Ha. apply (perm_removes cs' v P) in Hr. apply (perm_adds cs' v P) in Ha.
+    apply NS.diff_spec in Hr as [_ Hr]. apply NS.diff_spec in Ha as [Ha _]. exact (Hr Ha).
+  Qed.
+
+  Lemma effect_final cs' : Permutation cs' cs -> NS.Equal (simulate cs' So) Sn.
+  Proof.
+    intros P v.
+    rewrite (simulate_spec cs' So (perm_simple cs' P) (perm_disjoint cs' P)).
+    rewrite (perm_removes cs' v P), (perm_adds cs' v P), !NS.diff_spec, HSo, HSn.
+    assert (D := HUO v).
+    destruct (NSP.In_dec v A) as [Ia|Ia], (NSP.In_dec v O) as [Io|Io]; tauto.
+  Qed.
+
+  Lemma effect_prefix cs' l1 l2 :
+    Permutation cs' cs -> cs' = l1 ++ l2 ->
+    forall v, NS.In v So -> NS.In v Sn -> NS.In v (simulate l1 So).
+  Proof.
+    intros P E v Ho Hn.
+    assert (F : Forall simple_cmd l1).
+    { assert (F := perm_simple cs' P). rewrite E in F. now apply Forall_app in F as [F _]. }
+    assert (Dj : forall w, removes l1 w -> adds l1 w -> False).
+    { intros w Hr Ha. apply (perm_disjoint cs' P w); rewrite E; [now apply removes_app_l|now apply adds_app_l]. }
+    rewrite (simulate_spec l1 So F Dj). left. split; [exact Ho|].
+    intro Hr. assert (Hr' : removes cs' v) by (rewrite E; now apply removes_app_l).
+    apply (perm_removes cs' v P) in Hr'. apply NS.diff_spec in Hr' as [Io Ia].
+    apply HSn in Hn as [Hu|Ha]; [exact (HUO v Hu Io)|exact (Ia Ha)].
+  Qed.
+End Effect.
+
+(* ------------------------------------------------------------------------------------ *)
+(* the rule logics *)
+
+Definition tiny_of (k : rulek) : bool := if is_hw (rk_logic k) then true else rk_catalyst k.
+
+Lemma process_cases k na nr nu A O cs :
+  process true k na nr nu A O = Some cs ->
+  cs = cmds_of (rk_logic k) (tiny_of k) (NS.diff O A) (NS.diff A O) \/
+  (cs = [RemoveAll] /\ na = 0%nat /\ nu = 0%nat) \/
+  (cs = [SetNone] /\ na = 1%nat /\ NS.Empty A).
+Proof.
+  unfold process, tiny_of. destruct (is_hw (rk_logic k)).
+  - unfold hw_process.
+    destruct (logic_eqb (rk_logic k) HwSingle && (Nat.ltb 1 na || Nat.ltb 1 nr)); [discriminate|].
+    destruct (negb (Nat.eqb nr 0) && Nat.eqb na 0 && (negb true || Nat.eqb nu 0) &&
+              (logic_eqb (rk_logic k) HwMultiAll || logic_eqb (rk_logic k) HwSingle)) eqn:S.
+    + intro E. injection E as E. right. left.
+      apply andb_true_iff in S as [S _]. apply andb_true_iff in S as [S S3].
+      apply andb_true_iff in S as [_ S2]. cbn in S3.
+      apply Nat.eqb_eq in S2. apply Nat.eqb_eq in S3. now subst.
+    + intro E. injection E as E. left. now subst cs.
+  - unfold cisco_process.
+    destruct (Nat.eqb na 1 && NS.is_empty A) eqn:S.
+    + intro E. injection E as E. right. right.
+      apply andb_true_iff in S as [S1 S2]. apply Nat.eqb_eq in S1. apply NS.is_empty_spec in S2.
+      now subst.
+    + intro E. injection E as E. left. now subst cs.
+Qed.
+
+Lemma process_total k na nr nu A O :
+  (rk_logic k = HwSingle -> (na <= 1)%nat /\ (nr <= 1)%nat) ->
+  exists cs, process true k na nr nu A O = Some cs.
+Proof.
+  intro H. unfold process. destruct (is_hw (rk_logic k)).
+  - unfold hw_process.
+    destruct (logic_eqb (rk_logic k) HwSingle && (Nat.ltb 1 na || Nat.ltb 1 nr)) eqn:S.
+    + apply andb_true_iff in S as [S1 S2]. destruct (rk_logic k); try discriminate S1.
+      destruct (H eq_refl) as [Ha Hr]. apply orb_true_iff in S2 as [S2|S2]; apply Nat.ltb_lt in S2; lia.
+    + match goal with |- exists cs, (if ?b then _ else _) = _ => destruct b end; eexists; reflexivity.
+  - unfold cisco_process.
+    match goal with |- exists cs, (if ?b then _ else _) = _ => destruct b end; eexists; reflexivity.
+Qed.
+
+(* a line with an empty set only exists as Cisco's lone "vlan none" *)
+Lemma nonempty_line l :
+  forallb range_ok (snd l) = true -> is_nil (snd l) = false -> exists v, NS.In v (line_set l).
+Proof.
+  destruct l as [f [|r rs]]; cbn [snd is_nil forallb]; [discriminate|].
+  intros H _. apply andb_true_iff in H as [H _]. unfold range_ok in H. apply N.leb_le in H.
+  exists (fst r). unfold line_set. cbn [snd]. apply set_of_ranges_spec.
+  exists r. split; [now left|]. unfold in_range. lia.
+Qed.
+
+Lemma config_none k ls l :
+  config_ok k ls = true -> In l ls -> NS.Empty (line_set l) -> ls = [(false, [])].
+Proof.
+  unfold config_ok. intros H Hl He.
+  apply andb_true_iff in H as [H H4]. apply andb_true_iff in H as [H _].
+  apply andb_true_iff in H as [H1 _].
+  assert (G : forallb (fun l => negb (is_nil (snd l))) ls = true -> False).
+  { intro G. rewrite forallb_forall in G, H1. specialize (G l Hl). specialize (H1 l Hl).
+    apply negb_true_iff in G. destruct (nonempty_line l H1 G) as (v & Hv). exact (He v Hv). }
+  destruct ls as [|[b rs] tl]; [destruct Hl|].
+  destruct b; [now exfalso|]. destruct rs; [|now exfalso]. destruct tl; [reflexivity|now exfalso].
+Qed.
+
+Lemma set_of_lines_nil_empty : NS.Empty (set_of_lines []).
+Proof. cbn. apply NS.empty_spec. Qed.
+
+Lemma length_0_nil {A} (l : list A) : List.length l = 0%nat -> l = [].
+Proof. destruct l; [reflexivity|discriminate]. Qed.
+
+Section Main.
+  Variables (k : rulek) (old new : list line).
+  Hypothesis WF : wf_C11 (k, old, new) = true.
+
+  Let Hold : config_ok k old = true.
+  Proof. unfold wf_C11 in WF. cbn in WF. apply andb_true_iff in WF as [W _]. now apply andb_true_iff in W as [W _]. Qed.
+  Let Hnew : config_ok k new = true.
+  Proof. unfold wf_C11 in WF. cbn in WF. apply andb_true_iff in WF as [W _]. now apply andb_true_iff in W as [_ W]. Qed.
+  Let Hpd : pairwise_disjoint old = true.
+  Proof.
+    unfold config_ok in Hold. apply andb_true_iff in Hold as [H _]. apply andb_true_iff in H as [H _].
+    now apply andb_true_iff in H as [_ H].
+  Qed.
+
+  (* the new list is empty whenever the model emits a whole-list command *)
+  Lemma whole_list_new_empty cs :
+    model_struct k old new = Some cs ->
+    cs = cmds_of (rk_logic k) (tiny_of k) (NS.diff (set_of_lines (lines_removed old new)) (set_of_lines (lines_added old new)))
+                 (NS.diff (set_of_lines (lines_added old new)) (set_of_lines (lines_removed old new))) \/
+    ((cs = [RemoveAll] \/ cs = [SetNone]) /\ NS.Empty (set_of_lines new)).
+  Proof.
+    unfold model_struct, model_struct_g. intro E.
+    apply process_cases in E as [E|[(E & Ha & Hu)|(E & Ha & He)]]; [now left| |]; right.
+    - split; [now left|]. intros v Hv. apply (S_new_split old new) in Hv.
+      apply length_0_nil in Ha. apply length_0_nil in Hu. rewrite Ha, Hu in Hv.
+      destruct Hv as [Hv|Hv]; exact (set_of_lines_nil_empty v Hv).
+    - split; [now right|].
+      destruct (lines_added old new) as [|la [|? ?]] eqn:EA; try discriminate Ha.
+      assert (Hin : In la new).
+      { assert (H : In la (lines_added old new)) by (rewrite EA; now left).
+        unfold lines_added in H. now apply filter_In in H as [H _]. }
+      assert (Hle : NS.Empty (line_set la)).
+      { intros v Hv. apply (He v). apply set_of_lines_spec. exists la. split; [now left|exact Hv]. }
+      rewrite (config_none k new la Hnew Hin Hle).
+      intros v Hv. apply set_of_lines_spec in Hv as (l & [El|[]] & Hv). subst l.
+      unfold line_set in Hv. cbn in Hv. revert Hv. apply NSF.empty_iff.
+  Qed.
+
+  Theorem final_struct cs cs' :
+    model_struct k old new = Some cs -> Permutation cs' cs ->
+    NS.Equal (simulate cs' (set_of_lines old)) (set_of_lines new).
+  Proof.
+    intros E P. apply whole_list_new_empty in E as [E|[E He]].
+    - subst cs.
+      apply (effect_final (rk_logic k) (tiny_of k) (set_of_lines (lines_unchanged old new))
+                          (set_of_lines (lines_removed old new)) (set_of_lines (lines_added old new))).
+      + apply S_old_split.
+      + apply S_new_split.
+      + intros v. now apply U_O_disjoint.
+      + exact P.
+    - assert (Ec : cs' = cs).
+      { destruct E as [E|E]; subst cs; apply Permutation_sym in P; now apply Permutation_length_1_inv in P. }
+      subst cs'. intro v. split.
+      + intro H. exfalso. destruct E as [E|E]; subst cs; cbn in H; revert H; apply NSF.empty_iff.
+      + intro H. exfalso. exact (He v H).
+  Qed.
+
+  Theorem prefix_struct cs cs' l1 l2 :
+    model_struct k old new = Some cs -> Permutation cs' cs -> cs' = l1 ++ l2 ->
+    NS.Subset (NS.inter (set_of_lines old) (set_of_lines new)) (simulate l1 (set_of_lines old)).
+  Proof.
+    intros E P El v Hv. apply NS.inter_spec in Hv as [Ho Hn].
+    apply whole_list_new_empty in E as [E|[_ He]]; [|exfalso; exact (He v Hn)].
+    subst cs.
+    exact (effect_prefix (rk_logic k) (tiny_of k) (set_of_lines (lines_unchanged old new))
+                         (set_of_lines (lines_removed old new)) (set_of_lines (lines_added old new))
+                         (set_of_lines old) (set_of_lines new)
+                         (S_new_split old new)
+                         (fun w => U_O_disjoint old new w Hpd) cs' l1 l2 P El v Ho Hn).
+  Qed.
+
+  Theorem total_struct : exists cs, model_struct k old new = Some cs.
+  Proof.
+    unfold model_struct, model_struct_g. apply process_total. intro Hs.
+    unfold wf_C11 in WF. cbn in WF. apply andb_true_iff in WF as [_ W].
+    unfold single_ok in W. rewrite Hs in W. cbn in W.
+    apply andb_true_iff in W as [W1 W2]. apply Nat.leb_le in W1. apply Nat.leb_le in W2. now split.
+  Qed.
+End Main.
+
+(* ------------------------------------------------------------------------------------ *)
+(* the boolean predicate of Spec/P_C11.v *)
+
+Lemma states_prefix : forall cs s t,
+  In t (states cs s) -> exists l1 l2, cs = l1 ++ l2 /\ t = simulate l1 s.
+Proof.
+  induction cs as [|c cs IH]; intros s t H; cbn [states] in H.
+  - destruct H as [E|[]]. exists [], []. now split.
+  - destruct H as [E|H].
+    + exists [], (c :: cs). now split.
+    + apply IH in H as (l1 & l2 & E & Et). exists (c :: l1), l2. split; [now rewrite E|exact Et].
+Qed.
+
+Theorem holds_struct k old new cs :
+  wf_C11 (k, old, new) = true -> model_struct k old new = Some cs ->
+  cmds_ok (k, old, new) cs = true.
+Proof.
+  intros WF E. unfold cmds_ok, reaches, keeps_common, S_old, S_new. cbn [in_old in_new fst snd].
+  apply andb_true_iff. split.
+  - apply NS.equal_spec. apply (final_struct k old new WF cs cs E). apply Permutation_refl.
+  - apply forallb_forall. intros t Ht. apply NS.subset_spec.
+    apply states_prefix in Ht as (l1 & l2 & El & Et). subst t.
+    exact (prefix_struct k old new WF cs cs l1 l2 E (Permutation_refl _) El).
+Qed.
+
+(* ------------------------------------------------------------------------------------ *)
+(* expand (device meaning of the written ranges) after collapse, with any chunking *)
+
+Lemma expand_collapse_chunked tiny n s :
+  NS.Equal (set_of_ranges (concat (chunked (S n) (collapse tiny s)))) s.
+Proof. intro v. rewrite chunked_concat, set_of_ranges_spec. apply collapse_spec. Qed.
+
+Lemma expand_collapse tiny s : NS.Equal (set_of_ranges (collapse tiny s)) s.
+Proof. intro v. rewrite set_of_ranges_spec. apply collapse_spec. Qed.
